@@ -92,14 +92,14 @@ Print Assumptions C05_tradeoff_points_are_source.
 
 (* every metric SIMPLE_CONSTRAINTS maps a constraint name to satisfies the premise of C04_simple_parity, and every
    member of OBJECTIVES_FOR_EQUALIZED_ODDS the premise of C05_eo_optimal *)
-Theorem C05_admitted_configurations_are_source :
+Theorem C05_allowed_configurations_are_source :
   Forall constraint_metric Gen_threshopt.simple_constraint_metrics /\
   Forall (fun o => o = Acc \/ o = BalAcc) Gen_threshopt.eo_objectives.
 Proof.
   split; [unfold Gen_threshopt.simple_constraint_metrics; repeat (apply Forall_cons; [exact I|]); apply Forall_nil
          | unfold Gen_threshopt.eo_objectives; repeat (apply Forall_cons; [auto|]); apply Forall_nil].
 Qed.
-Print Assumptions C05_admitted_configurations_are_source.
+Print Assumptions C05_allowed_configurations_are_source.
 
 (* jensen_chain: a chain that passes the boolean upper-hull test against pts dominates every convex
    combination of pts (the hull is the concave envelope of the achievable points) *)
